@@ -552,11 +552,10 @@ class Cross(Case):
         tag = "%s_N%d_K%s_d%s_%s%s%s" % (kind, N, K, "x".join(map(str, dims)), coupling, "" if record_all else "_last",
                                        "" if layout == "C" else "_layoutF")
         self.id = ("H1/cdwf_field_time/cross_" if kind not in AUTONOMOUS else "H1/cross_auto/") + tag
-        self.bounds_layout = layout
         if kind not in AUTONOMOUS:
             self.first_timeout_s = 2
         self.bounds = {"N": N, "dkmax": K, "dims": list(dims), "eom": kind, "coupling": coupling, "start_time": 0.5, "dt": 0.25,
-                       "record_all": record_all}
+                       "record_all": record_all, "initial_state_memory_layout": layout}
         self.env = {"noconj": True, "extra": sym_env_extra()}
 
     def run(self, inp):
